@@ -332,9 +332,9 @@ func evaluate(cs *caseSpec) (fs []finding, st *evalStats, harnessErr string) {
 		case cause != "":
 			cause = "forged-endorsers-sig:" + cause
 		case proposerClaimed:
-			cause = "all-signatures-valid:proposer-counted-twice"
+			cause = "all-signatures-valid:proposer-is-also-committer-or-endorser"
 		default:
-			cause = "all-signatures-valid:unexplained"
+			cause = "all-signatures-valid:proposer-not-among-signers"
 		}
 		var vl []int
 		for i := range V {
